@@ -93,6 +93,14 @@ type (
 		// off-chain states) when processing events from the blockchain.
 		txRetriever txRetriever
 
+		// lastRegisteredEvent is the most recent registered event received
+		// from the blockchain for this channel. It is handled once more when
+		// a state is received from the client afterwards, see
+		// handleStatesAfterRegisteredEvent.
+		lastRegisteredEvent *channel.RegisteredEvent
+		// stateReceived signals that a state was received from the client.
+		stateReceived chan struct{}
+
 		eventsFromChainSub channel.AdjudicatorSubscription
 		eventsToClientPub  adjudicatorPub
 		statesSub          statesSub
@@ -267,6 +275,8 @@ func (w *Watcher) startWatching(
 
 	ch.Go(func() { ch.handleStatesFromClient(initialTx) })
 	ch.Go(func() { ch.handleEventsFromChain(w.rs, w.registry) }) //nolint:contextcheck
+	//nolint:contextcheck
+	ch.Go(func() { ch.handleStatesAfterRegisteredEvent(w.rs, w.registry) })
 
 	return statesPubSub, eventsToClientPubSub, nil
 }
@@ -295,6 +305,7 @@ func newCh(
 			request:  make(chan struct{}),
 			response: make(chan channel.Transaction),
 		},
+		stateReceived: make(chan struct{}, 1),
 
 		eventsFromChainSub: eventsFromChainSub,
 		eventsToClientPub:  eventsToClientPub,
@@ -332,15 +343,26 @@ func (ch *ch) handleStatesFromClient(initialTx channel.Transaction) {
 			}
 			currentTx = _tx
 			log.WithField("ID", currentTx.ID).Debugf("Received state from client", currentTx.Version, currentTx.ID)
+			ch.notifyStateReceived()
 
 		case <-ch.txRetriever.request:
 			pendingTx, found := readPendingTxs(ch.statesSub, statesFromClientWaitTime)
 			if found {
 				currentTx = pendingTx
+				ch.notifyStateReceived()
 			}
 
 			ch.txRetriever.response <- currentTx
 		}
+	}
+}
+
+// notifyStateReceived signals that a state was received from the client. It
+// does not block: a signal that is still pending covers this state, too.
+func (ch *ch) notifyStateReceived() {
+	select {
+	case ch.stateReceived <- struct{}{}:
+	default:
 	}
 }
 
@@ -403,6 +425,49 @@ func (ch *ch) handleEventsFromChain(registerer channel.Registerer, chRegistry *r
 	}
 }
 
+// handleStatesAfterRegisteredEvent handles the last registered event once more,
+// each time a state is received from the client after it.
+//
+// The client keeps signing an update that was in flight when the state was
+// registered on the blockchain, until it is notified of the registered event.
+// Such a state reaches the watcher only after the event was handled and, as no
+// further event is to be expected, it would never be registered otherwise.
+//
+// It should be started as a go-routine and returns when watching is stopped.
+func (ch *ch) handleStatesAfterRegisteredEvent(registerer channel.Registerer, chRegistry *registry) {
+	// Create a context that is canceled when the watcher is stopped.
+	ctx, cancel := context.WithCancel(context.Background())
+
+	go func() {
+		<-ch.done
+		cancel()
+	}()
+
+	parent := ch
+	if ch.isSubChannel() {
+		parent = ch.parent
+	}
+
+	for {
+		select {
+		case <-ch.stateReceived:
+		case <-ch.done:
+			return
+		}
+
+		if !parent.subChsAccess.TryLockCtx(ctx) {
+			// Watching has been stopped. We return.
+			return
+		}
+		e := ch.lastRegisteredEvent
+		parent.subChsAccess.Unlock()
+
+		if e != nil {
+			ch.handleRegisteredEvent(ctx, e, registerer, chRegistry)
+		}
+	}
+}
+
 func (ch *ch) handleRegisteredEvent(
 	ctx context.Context,
 	e *channel.RegisteredEvent,
@@ -425,6 +490,7 @@ func (ch *ch) handleRegisteredEvent(
 		return
 	}
 	defer parent.subChsAccess.Unlock()
+	ch.lastRegisteredEvent = e
 
 	log := log.WithFields(log.Fields{"ID": e.ID(), "Version": e.Version()})
 	log.Debug("Received registered event from chain")
